@@ -7,6 +7,7 @@ SPDX-License-Identifier: Apache-2.0
 package bbs12381g2pub
 
 import (
+	"bytes"
 	"crypto/rand"
 
 	ml "github.com/IBM/mathlib"
@@ -15,6 +16,15 @@ import (
 
 func parseFr(data []byte) *ml.Zr {
 	return curve.NewZrFromBytes(data)
+}
+
+// isCanonicalFr tells whether data is the canonical encoding of the scalar parsed from it, i.e. of a value below the
+// group order; any other 32 bytes are a second representation of a scalar that already has one.
+func isCanonicalFr(fr *ml.Zr, data []byte) bool {
+	reduced := fr.Copy()
+	reduced.Mod(curve.GroupOrder)
+
+	return bytes.Equal(reduced.Bytes(), data)
 }
 
 // nolint:gochecknoglobals
